@@ -84,7 +84,30 @@ Fails ==
     \cup (IF pc = NPasses + 1 /\ run = 2 /\ last # "" /\ tab # out1
             THEN {<<"not-idempotent", first, "", {}>>} ELSE {})
 
-Diverges == i <= Len(Cases) /\ last # "" /\ pred # tab
+(* FindCommonSuperClasses builds its union from the iteration order of a Python set; the       *)
+(* prediction is compared modulo the order of union members for that pass only.                *)
+RECURSIVE TEqU(_, _)
+TEqU(a, b) ==
+  /\ a[1] = b[1] /\ a[2] = b[2] /\ Len(a[3]) = Len(b[3])
+  /\ IF a[1] = "union"
+       THEN /\ \A k \in DOMAIN a[3] : \E j \in DOMAIN b[3] : TEqU(a[3][k], b[3][j])
+            /\ \A j \in DOMAIN b[3] : \E k \in DOMAIN a[3] : TEqU(a[3][k], b[3][j])
+       ELSE \A k \in DOMAIN a[3] : TEqU(a[3][k], b[3][k])
+ParamEqU(p, q) == p.name = q.name /\ p.kind = q.kind /\ TEqU(p.type, q.type) /\ TEqU(p.mut, q.mut)
+SigEqU(s, o) ==
+  /\ Len(s.params) = Len(o.params) /\ Len(s.exc) = Len(o.exc)
+  /\ \A k \in DOMAIN s.params : ParamEqU(s.params[k], o.params[k])
+  /\ TEqU(s.ret, o.ret)
+  /\ \A k \in DOMAIN s.exc : TEqU(s.exc[k], o.exc[k])
+TabEqU(a, b) ==
+  /\ Shape(a) = Shape(b)
+  /\ \A k \in DOMAIN a.consts : TEqU(a.consts[k].type, b.consts[k].type)
+  /\ \A k \in DOMAIN a.funcs :
+        /\ Len(a.funcs[k].sigs) = Len(b.funcs[k].sigs)
+        /\ \A j \in DOMAIN a.funcs[k].sigs : SigEqU(a.funcs[k].sigs[j], b.funcs[k].sigs[j])
+
+Diverges == /\ i <= Len(Cases) /\ last # "" /\ pred # tab
+            /\ (last = "FindCommon" => ~TabEqU(pred, tab))
 
 Stat ==
   (i <= Len(Cases) /\ pc = NPasses + 1 /\ run = 1 /\ last # "") =>
